@@ -238,6 +238,7 @@ pub const NUM_LITS: [&str; 5] = ["0", "1", "2", "-1", "1.5"];
 pub const TPL_LITS: [&str; 17] = ["a", "-", "x.", "(b)", "a|b", "$", "[k]", "a+", "^", "\\d", "{2}", "?", "*", "/", "`", "${", "a`${b}"];
 pub const DEF_NAMES: [&str; 4] = ["Alpha", "Beta", "Gamma", "Delta"];
 pub const ODD_DEF_NAMES: [&str; 4] = ["Alpha$", "Bêta", "$Gamma", "Delta$x"];
+pub const ODD_DEF_NAMES2: [&str; 4] = ["Alpha$$a", "Beta$$", "$$Gamma", "Delta$$"];
 
 struct G<'c> {
     cfg: &'c GenCfg,
@@ -668,7 +669,13 @@ pub fn gen_env_and_roots(s: &mut Src, cfg: &GenCfg, n_roots: usize) -> (Env, Vec
         };
         // a definition that is *only* a self/forward reference would not be contractive: `ty(.., guarded=false)`
         // never produces one.
-        let name = if cfg.odd_names && s.chance(1, 12) { ODD_DEF_NAMES[i] } else { DEF_NAMES[i] };
+        // (odd but legal identifiers: `$` and non-ASCII letters, a doubled `$$`, and names that an object inherits from
+        // Object.prototype)
+        let name = if cfg.odd_names && s.chance(1, 12) {
+            if s.chance(1, 3) { ODD_DEF_NAMES2[i] } else { ODD_DEF_NAMES[i] }
+        } else {
+            DEF_NAMES[i]
+        };
         env.defs.push((name.to_string(), body));
     }
     let g = G {
